@@ -681,18 +681,48 @@ func clipBytes(b []byte) []byte {
 }
 
 // reencodeOracle: Encode(v) must succeed; decoding that encoding (stand-alone and followed by other
-// data) must give a value equal to v and consume exactly the encoding.
+// data) must give a value equal to the first decode and consume exactly the encoding. The first
+// decode is repeated after Encode so that an Encode which modifies its receiver cannot hide a
+// difference. A failure is attributed to the innermost built-in value that is unstable on its own
+// (see culprit), so that the same defect reached through different entry points is one finding.
 func reencodeOracle(t *dtarget, v reflect.Value, n int, in []byte) (string, string) {
+	kind, detail := reencodeCheck(func(b []byte) (reflect.Value, int, error) { return t.decode(b) }, v, in, t.svc)
+	if kind == "" {
+		return "", ""
+	}
+	ref, _, err := t.decode(in)
+	who := "generated-struct"
+	if t.Kind == "builtin" {
+		who = t.Name
+	}
+	if err == nil {
+		if name, k2, d2 := culprit(ref, 0); name != "" {
+			return "reencode/" + name + "/" + k2, d2 + "; reached through " + t.Name + " with input " + fmt.Sprintf("%x", clipBytes(in)) + " (" + kind + ": " + detail + ")"
+		}
+	}
+	return "reencode/" + who + "/" + kind, detail
+}
+
+// reencodeCheck applies the oracle to one value with the given decoder; it returns (failure kind, detail).
+func reencodeCheck(dec func([]byte) (reflect.Value, int, error), v reflect.Value, in []byte, svc bool) (string, string) {
 	var enc []byte
 	var err error
 	if g := guard(func() { enc, err = ua.Encode(v.Interface()) }); g.panicked {
-		return "reencode/encode-panic:" + g.pclass + "/" + g.ptop, fmt.Sprintf("%s; input %x", g.pmsg, clipBytes(in))
+		return "encode-panic:" + g.pclass + "/" + g.ptop, fmt.Sprintf("%s; input %x", g.pmsg, clipBytes(in))
 	}
 	if err != nil {
-		return "reencode/encode-error:" + errClass(err), fmt.Sprintf("%v; input %x", err, clipBytes(in))
+		return "encode-error:" + errClass(err), fmt.Sprintf("%v; input %x", err, clipBytes(in))
+	}
+	// the reference value: a fresh first decode (Encode may have modified v)
+	ref := v
+	if in != nil {
+		var rerr error
+		if g := guard(func() { ref, _, rerr = dec(in) }); g.panicked || rerr != nil {
+			return "first-decode-not-repeatable", fmt.Sprintf("input %x", clipBytes(in))
+		}
 	}
 	wire := enc
-	if t.svc {
+	if svc {
 		// the service type id is not part of the decoded value; put the original one back
 		idn := 0
 		var tid ua.ExpandedNodeID
@@ -701,38 +731,108 @@ func reencodeOracle(t *dtarget, v reflect.Value, n int, in []byte) (string, stri
 	}
 	var v2 reflect.Value
 	var n2 int
-	if g := guard(func() { v2, n2, err = t.decode(wire) }); g.panicked {
-		return "reencode/redecode-panic:" + g.pclass + "/" + g.ptop, fmt.Sprintf("%s; input %x reencoded %x", g.pmsg, clipBytes(in), clipBytes(enc))
+	if g := guard(func() { v2, n2, err = dec(wire) }); g.panicked {
+		return "redecode-panic:" + g.pclass + "/" + g.ptop, fmt.Sprintf("%s; input %x reencoded %x", g.pmsg, clipBytes(in), clipBytes(enc))
 	}
 	if err != nil {
-		return "reencode/redecode-error:" + errClass(err), fmt.Sprintf("%v; input %x reencoded %x", err, clipBytes(in), clipBytes(enc))
+		return "redecode-error:" + errClass(err), fmt.Sprintf("%v; input %x reencoded %x", err, clipBytes(in), clipBytes(enc))
 	}
-	if d := diff(v, v2, "", normC03, 0); d != "" {
-		return "reencode/value-differs@" + diffLeaf(d), fmt.Sprintf("%s; input %x reencoded %x", d, clipBytes(in), clipBytes(enc))
+	if d := diff(ref, v2, "", normC03, 0); d != "" {
+		return "value-differs@" + diffLeaf(d), fmt.Sprintf("%s; input %x reencoded %x", d, clipBytes(in), clipBytes(enc))
 	}
-	if !t.svc {
+	if !svc {
 		if n2 != len(enc) {
-			return "reencode/reencoding-not-consumed", fmt.Sprintf("decoding the re-encoding consumed %d of %d bytes; input %x reencoded %x", n2, len(enc), clipBytes(in), clipBytes(enc))
+			return "reencoding-not-consumed", fmt.Sprintf("decoding the re-encoding consumed %d of %d bytes; input %x reencoded %x", n2, len(enc), clipBytes(in), clipBytes(enc))
 		}
 		// as a field of a container: followed by a sentinel
 		var v3 reflect.Value
 		var n3 int
 		emb := append(append([]byte{}, enc...), trailer...)
-		if g := guard(func() { v3, n3, err = t.decode(emb) }); g.panicked {
-			return "reencode/embedded-redecode-panic:" + g.pclass + "/" + g.ptop, g.pmsg
+		if g := guard(func() { v3, n3, err = dec(emb) }); g.panicked {
+			return "embedded-redecode-panic:" + g.pclass + "/" + g.ptop, g.pmsg
 		}
 		if err != nil {
-			return "reencode/embedded-redecode-error:" + errClass(err), fmt.Sprintf("%v; input %x reencoded %x", err, clipBytes(in), clipBytes(enc))
+			return "embedded-redecode-error:" + errClass(err), fmt.Sprintf("%v; input %x reencoded %x", err, clipBytes(in), clipBytes(enc))
 		}
 		if n3 != len(enc) {
-			return "reencode/embedded-sentinel-changed", fmt.Sprintf("in a container the re-encoded value is read as %d bytes instead of %d: the following field changes; input %x reencoded %x", n3, len(enc), clipBytes(in), clipBytes(enc))
+			return "embedded-sentinel-changed", fmt.Sprintf("in a container the re-encoded value is read as %d bytes instead of %d: the following field changes; input %x reencoded %x", n3, len(enc), clipBytes(in), clipBytes(enc))
 		}
-		if d := diff(v, v3, "", normC03, 0); d != "" {
-			return "reencode/embedded-value-differs@" + diffLeaf(d), d
+		if d := diff(ref, v3, "", normC03, 0); d != "" {
+			return "embedded-value-differs@" + diffLeaf(d), d
 		}
 	}
-	_ = n
 	return "", ""
+}
+
+// culprit searches a decoded value for the innermost value of a built-in type (or DateTime) that
+// does not survive Encode -> Decode on its own. It returns its type name and failure.
+func culprit(v reflect.Value, depth int) (string, string, string) {
+	if !v.IsValid() || depth > 64 {
+		return "", "", ""
+	}
+	// children first
+	switch v.Kind() {
+	case reflect.Ptr, reflect.Interface:
+		if v.IsNil() {
+			return "", "", ""
+		}
+		if v.Type() == variantT {
+			if n, k, d := culprit(reflect.ValueOf(v.Interface().(*ua.Variant).Value()), depth+1); n != "" {
+				return n, k, d
+			}
+		} else if n, k, d := culprit(v.Elem(), depth+1); n != "" {
+			return n, k, d
+		}
+	case reflect.Struct:
+		if v.Type() != timeT {
+			for i := 0; i < v.NumField(); i++ {
+				if v.Type().Field(i).PkgPath != "" {
+					continue
+				}
+				if n, k, d := culprit(v.Field(i), depth+1); n != "" {
+					return n, k, d
+				}
+			}
+		}
+	case reflect.Slice, reflect.Array:
+		if v.Type().Elem().Kind() != reflect.Uint8 {
+			for i := 0; i < v.Len() && i < 64; i++ {
+				if n, k, d := culprit(v.Index(i), depth+1); n != "" {
+					return n, k, d
+				}
+			}
+		}
+	}
+	// then the value itself, if it is a built-in
+	var name string
+	var typ reflect.Type
+	switch {
+	case v.Type() == timeT:
+		name, typ = "DateTime", timeT
+	case v.Kind() == reflect.Ptr:
+		if _, ok := defaultSpecial(v.Type()); ok || v.Type() == reflect.TypeOf((*ua.QualifiedName)(nil)) {
+			name, typ = v.Type().Elem().Name(), v.Type().Elem()
+		}
+	}
+	if name == "" {
+		return "", "", ""
+	}
+	dec := func(b []byte) (reflect.Value, int, error) {
+		w := reflect.New(typ)
+		n, err := ua.Decode(b, w.Interface())
+		if typ == timeT {
+			return w.Elem(), n, err
+		}
+		return w, n, err
+	}
+	val := v
+	if typ == timeT && !v.CanInterface() {
+		return "", "", ""
+	}
+	if k, d := reencodeCheck(dec, val, nil, false); k != "" {
+		return name, k, d
+	}
+	return "", "", ""
 }
 
 // ---- unit runners -----------------------------------------------------------------------------
